@@ -215,7 +215,7 @@ func compareOutcome(res ech.ResolveResult, err error, want dnsfx.RefOutcome) str
 func TestC14(t *testing.T) {
 	rec := ev.Get("C14")
 	rec.Rule("random zones served by a loopback DoH server that answers like a recursive resolver (CNAME chain first, packets built with dnsmessage): host with A/AAAA (directly or through CNAME chains), at the RFC 9460 query name either nothing, NXDOMAIN, a service RRset (1..4 records, equal/distinct priorities, targets with/without addresses, ports, ALPN, ECH markers), or an alias chain of 0..8 links (loops, self alias, alias to '.', alias to a name with only addresses) optionally behind a CNAME; forced RCODEs 1..5 and 6..23 and HTTP 4xx on single (name,type) pairs; poison records (HTTPS with attacker ECH, A, AAAA, CNAME) owned by an unrelated name in every answer. Name forms: host, host:port (0/80/443/other), scheme://host[:port][/path] (http/https/other, mixed case), IP literals, localhost, over-long hosts, labels, schemes and constructed names. Oracle: reference resolver over the zone (RFC 9460 2.3/2.4.2/3), poison markers absent, query log (types, RFC-conformant names from the allowed set, count bound). distinct = (zone shape, name form); non-trivial = zone has HTTPS records or a CNAME for the queried name")
-	rec.Mandatory("longest_valid_host", "alias_loop", "alias_chain_gt_limit", "poison", "rcode:1", "rcode:2", "rcode:3", "rcode:4", "rcode:5", "port_non443_other_scheme", "overlong_scheme", "overlong_constructed", "overlong_host", "ip_literal", "service_with_targets", "cname_to_https", "nxdomain_https", "service_targets_origin_host")
+	rec.Mandatory("longest_valid_host", "alias_loop", "alias_chain_gt_limit", "poison", "rcode:1", "rcode:2", "rcode:3", "rcode:4", "rcode:5", "port_non443_other_scheme", "overlong_scheme", "overlong_constructed", "overlong_host", "ip_literal", "service_with_targets", "cname_to_https", "nxdomain_https", "service_targets_origin_host", "host_with_trailing_dot")
 	rapid.Check(t, func(t *rapid.T) {
 		var cl []string
 		host := "svc.example"
@@ -244,7 +244,12 @@ func TestC14(t *testing.T) {
 			}
 			cl = append(cl, "longest_valid_host")
 		}
-		input, form := genInput(t, host)
+		inputHost := host
+		if kind > 4 && rapid.IntRange(0, 4).Draw(t, "absolute_host") == 0 {
+			inputHost = host + "." // fully qualified spelling of the same name
+			cl = append(cl, "host_with_trailing_dot")
+		}
+		input, form := genInput(t, inputHost)
 		cl = append(cl, form)
 		if kind == 2 { // over-long scheme
 			input = strings.Repeat("s", rapid.SampledFrom([]int{63, 64, 65, 100, 255, 300, 400}).Draw(t, "schemelen")) + "://" + host + ":8443"
